@@ -22,3 +22,11 @@ check("C05", "exploration", "Hypothesis value trees + differential oracle (googl
       "Generated values: betterproto's JSON must be accepted by json_format.Parse and give the reference message of the same tree; the reference's JSON (camelCase and original proto names) must be accepted by from_json and give the same snapshot.",
       "Trusts json_format 7.36.1 as the canonical mapping; microsecond-resolution times only.",
       "DESIGN.md 3/C05")
+check("C15", "exploration", "Hypothesis boundary-biased integers + integer spec and reference well-known-type oracles",
+      "Generated microsecond values (full ranges, boundary and fraction-shape bias) x UTC offsets x field positions: the (seconds, nanos) the reference decodes from betterproto's bytes must equal the integer spec and the reference's own FromDatetime/FromTimedelta; decode must give back the identical value; JSON strings must match the reference's canonical strings up to trailing zeros and round-trip.",
+      "Only aware datetimes; trusts google.protobuf Timestamp/Duration helpers and integer arithmetic in vf/values.py (cross-checked on every case).",
+      "DESIGN.md 3/C15")
+check("C20", "exploration", "Hypothesis enum definitions and field values + canonical-member model + reference cross-check",
+      "Generated Enum definitions (negatives, gaps, aliases) are checked for canonical identity on every lookup path, copy/pickle behaviour, openness and immutability; generated int32 numbers are pushed through every field position of plugin-generated enums and must survive binary and JSON round trips (reference decoder cross-checks the wire form).",
+      "Samples definitions and numbers; plugin-generated enums are the two corpus enums (grammar-generated enums are covered under C03).",
+      "DESIGN.md 3/C20")
